@@ -370,6 +370,42 @@ def run(ctx):
            func=stale[0][1].qual if stale else capcls.qual, file=capcls.module.rel, node=stale[0][2] if stale else None, construct="derived attributes",
            fail=(f"self.{stale[0][0]} is computed from the capability dict in {stale[0][3].name} and read by {stale[0][1].name}, but merge() does not update it: "
                  "records that arrive in the additional response are ignored by that getter (paged delivery differs from single-response delivery)") if stale else "")
+    # the page get_capabilities works on is the response to its own query: the helper it uses returns, of the valid responses, only one whose
+    # id is the id asked for (or nothing)
+    wid = prog.funcs.get("msmart.device.AC.device.AirConditioner._send_command_get_response_with_id")
+    if wid is not None and len(wid.args) >= 2:
+        ctx.fn(wid.qual)
+        ws_ = summarize(prog, wid)
+        idp = ("param", wid.args[1])
+        ok_id = True
+        n_ret = 0
+        for pc, t, n_, _st in ws_.returns:
+            if n_ is None or strip(t) == ("const", None):
+                continue
+            n_ret += 1
+            t0 = strip(t)
+
+            def id_matched(v, pc_):
+                return any(f[0] == "cmp" and f[1] == "==" and ((strip(f[2]) == ("attr", v, "id") and strip(f[3]) == idp) or (strip(f[3]) == ("attr", v, "id") and strip(f[2]) == idp))
+                           for f in atoms(pc_))
+            match = id_matched(t0, pc)
+            loop_targets = {x.id for l_ in ast.walk(wid.node) if isinstance(l_, (ast.For, ast.AsyncFor)) for x in ast.walk(l_.target) if isinstance(x, ast.Name)}
+            if not match and isinstance(getattr(n_, "value", None), ast.Name) and n_.value.id not in loop_targets:
+                # a result variable set inside the loop (`found = response; break`): every iteration that sets it has matched the id
+                name_ = n_.value.id
+                sets, all_ok = 0, True
+                for l_, info_ in ws_.loops.items():
+                    head_v = info_["head"].env.get(name_)
+                    for st_ in info_["breaks"] + info_["ends"] + info_["continues"]:
+                        v_ = st_.env.get(name_)
+                        if v_ is not None and v_ != head_v and strip(v_) != ("const", None):
+                            sets += 1
+                            all_ok = all_ok and id_matched(strip(v_), st_.pc)
+                match = sets >= 1 and all_ok
+            ok_id = ok_id and match
+        ctx.count("paging")
+        ctx.ob("C15.d", wid.qual, ok_id and n_ret >= 1, "the response handed back for an id is one whose id equals it", func=wid.qual, file=wid.module.rel, construct="response.id == response_id",
+               fail="_send_command_get_response_with_id can hand back a response with another id: the capability query is answered by whatever else arrived")
     ctx.require_min("record_loops", 1)
     ctx.require_min("back_edges", 1)          # (a single advance statement at the end of the body is one back edge)
     ctx.require_min("reads", 2)
